@@ -39,6 +39,14 @@ func HarnessC02TreeClone() {
 		}
 	}
 	if len(chosen) == 0 {
+		// a list made of one ELEMENT node (as GetOutputNodes yields for a subtree
+		// whose descendants are all filtered out): the clone must not bring back
+		// descendants that are not listed
+		els := dom.GetElementsByTagName(dom.QuerySelector(doc, "body"), "*")
+		e := els[vx.Choose("elem", len(els))]
+		c := TreeClone([]*html.Node{e})
+		vx.Assert(c != nil && c.FirstChild == nil && c.Data == e.Data, "clone of a single listed element contains nodes that are not in the list")
+		vx.Cover("single-element")
 		return
 	}
 	clone := TreeClone(chosen)
